@@ -114,7 +114,8 @@ CHECKS = {
 
 
 def main():
-    have = sorted(p for p in CHECKS if os.path.exists(os.path.join(ROOT, 'checks', p.lower() + '.py')))
+    ready = set(json.load(open(os.path.join(ROOT, 'tools', 'ready.json'))))   # reviewed + silent on the tree
+    have = sorted(p for p in CHECKS if p in ready and os.path.exists(os.path.join(ROOT, 'checks', p.lower() + '.py')))
     disabled = {}
     dpath = os.path.join(ROOT, 'tools', 'disabled.json')
     if os.path.exists(dpath):
